@@ -30,12 +30,24 @@ def run_checks(patch):
     sh("git -C %s apply %s" % (REPO, patch))
     res = {"applies": True, "checks": {}}
     try:
-        for pid in ALL:
+        only = [x for x in os.environ.get("VT_CHECKS", "").split(",") if x]
+        pids = only or ALL
+
+        def one(pid):
             rc, out = sh("./vt check %s" % pid, cwd=HERE)
             viol = re.findall(r"^  violation (\S+)", out, re.M)
-            res["checks"][pid] = {"exit": rc, "violations": viol[:6]}
+            r_ = {"exit": rc, "violations": viol[:6]}
             if rc not in (0, 1):
-                res["checks"][pid]["tail"] = out[-300:]
+                r_["tail"] = out[-300:]
+            return pid, r_
+        # the first check extracts the facts of the patched tree; the others reuse them and run side by side
+        first = one(pids[0])
+        res["checks"][first[0]] = first[1]
+        from concurrent.futures import ThreadPoolExecutor
+        with ThreadPoolExecutor(max_workers=8) as ex:
+            for pid, r_ in ex.map(one, pids[1:]):
+                res["checks"][pid] = r_
+        res["checks"] = {p_: res["checks"][p_] for p_ in pids}
     finally:
         sh("git -C %s checkout -- ." % REPO)
         sh("git -C %s clean -fdq -- versatiles versatiles_core versatiles_container versatiles_pipeline versatiles_geometry versatiles_derive" % REPO)
@@ -52,8 +64,9 @@ def main():
                 continue
             res = run_checks(os.path.join(d, "patch.diff"))
             m = json.load(open(os.path.join(d, "meta.json")))
-            m["result"] = res
-            json.dump(m, open(os.path.join(d, "meta.json"), "w"), indent=1)
+            if not os.environ.get("VT_CHECKS"):
+                m["result"] = res
+                json.dump(m, open(os.path.join(d, "meta.json"), "w"), indent=1)
             alarms = {p: c["violations"] for p, c in res.get("checks", {}).items() if c["exit"] != 0}
             tot += 1
             bad += 1 if alarms else 0
